@@ -98,6 +98,9 @@ class DatagramListenerSocketAdapter(transports.AsyncDatagramListener[tuple[Any, 
 
     async def send_to(self, data: bytes | bytearray | memoryview, address: tuple[Any, ...]) -> None:
         assert address is not None, "Address is None"  # nosec assert_used
+        if isinstance(data, memoryview) and (data.itemsize != 1 or data.ndim != 1):
+            # asyncio transports count the buffered data by items, then by bytes
+            data = data.cast("B")
         self.__transport.sendto(data, address)
         await self.__protocol.writer_drain()
 
